@@ -148,7 +148,7 @@ def run_family(family, n, loops=False, vals=(1, 2), inf=3, types=(1, 2), probs=(
           "MCVals == {%s}" % ", ".join(str(v) for v in sorted(vals)),
           "MCTypes == {%s}" % ", ".join(str(v) for v in sorted(types)),
           "MCProbs == {%s}" % ", ".join("<<%d, %d>>" % tuple(p) for p in probs),
-          "MCGiven == <<" + ",\n  ".join("<<\"%s\", %s>>" % (sc["kind"], tla_src(sc)) for sc in given) + ">>",
+          "MCGiven == {" + ",\n  ".join("<<\"%s\", %s>>" % (sc["kind"], tla_src(sc)) for sc in given) + "}",
           "===="]
     invs = list(INVARIANTS)
     if family in ("BOND",) or any(sc["kind"] == "BOND" for sc in given):
